@@ -126,15 +126,28 @@ def clause1_value(ctx, P):
     mono = Q.macro(P, "timer_linux.c", "CLOCK_MONOTONIC")
     for c in ti.calls("timerfd_create"):
         ctx.ob("C14.1 R-PAIR", ti, "clock", P.const_int(c.a[0]) == mono, "deadline timer is not on CLOCK_MONOTONIC")
-    conv = P.fn("timer_linux.c:convert_timeoutns_to_itimerspec")
-    zero = 0
-    for i in conv.all_insts():
-        if i.op == "store":
-            t = P.term(conv, i.a[1])
-            if Q.mentions(t, lambda x: x[0] == "field" and x[3] == "it_interval") and P.const_int(i.a[0]) == 0:
-                zero += 1
-    ctx.ob("C14.1 R-PAIR", conv, "one-shot", zero >= 2, "the timer is not one-shot (it_interval must be zero)")
     ts = P.fn("timer_linux.c:timer_start")
+    # the itimerspec handed to timerfd_settime has a zero interval: in whichever function of this unit fills it in
+    zero = 0
+    nonzero = []
+    conv = ts
+    for g in P.own_functions():
+        if g.base != "timer_linux.c":
+            continue
+        for i in g.all_insts():
+            if i.op == "store":
+                t = P.term(g, i.a[1])
+                if Q.mentions(t, lambda x: x[0] == "field" and x[3] == "it_interval"):
+                    conv = g
+                    if P.const_int(i.a[0]) == 0:
+                        zero += 1
+                    else:
+                        nonzero.append(i)
+            if i.op == "call" and i.callee and P.srcname_of(i.callee).startswith("llvm.memset") and P.const_int(i.a[1]) == 0:
+                if Q.mentions(P.term(g, i.a[0]), lambda x: x[0] in ("alloca", "param")) and g.calls("timerfd_settime") or \
+                        Q.mentions(P.term(g, i.a[0]), lambda x: x[0] == "field" and x[3] == "it_interval"):
+                    pass
+    ctx.ob("C14.1 R-PAIR", conv, "one-shot", zero >= 2 and not nonzero, "the timer is not one-shot (it_interval must be zero)")
     for c in ts.calls("timerfd_settime"):
         ctx.ob("C14.1 R-PAIR", ts, "relative", P.const_int(c.a[1]) == 0, "timer not armed relative to now")
     ctx.floor("C14.1 R-PAIR", 8)
